@@ -326,6 +326,21 @@ with overflow checks. Outcome must be ok/err; `load` outcomes are also compared 
             let mut b = f.into_bytes(); b.extend_from_slice(body); b.extend_from_slice(b"\nendstream\nendobj\nstartxref\n41\n%%EOF");
             cases.push(("xrefstream-systematic".into(), format!("L {}", hex_tok(&b)), c.cur));
         } } } }
+        // whole files around an object stream whose index lists an offset (and / or a number) more than once: loaded by lopdf and by
+        // the Lean reader (an offset that is listed again is used by its first pair only — lopdf fix of F-C04-h)
+        let dup_indexes: [&[(u32, usize)]; 7] = [&[(5, 0), (6, 0)], &[(5, 0), (5, 0), (6, 0)], &[(5, 0), (6, 6), (7, 0)], &[(5, 6), (6, 0), (7, 6), (8, 0)], &[(5, 0), (6, 6), (5, 6)], &[(9, 6), (9, 0)], &[(5, 0), (6, 0), (7, 0), (8, 0), (9, 6)]];
+        for (j, idx) in dup_indexes.iter().enumerate() {
+            let Some(_r) = c.case("objstm-dup-offsets", j as u64) else { continue };
+            let members = "[1 2] (ab) ";        // offsets 0 and 6
+            let index: String = idx.iter().map(|(n, o)| format!("{} {} ", n, o)).collect();
+            let content = format!("{}{}", index, members);
+            let mut f = b"%PDF-1.5\n".to_vec();
+            let o1 = f.len(); f.extend_from_slice(b"1 0 obj\n<</Type/Catalog>>\nendobj\n");
+            let o2 = f.len(); f.extend_from_slice(format!("2 0 obj\n<</Type/ObjStm/N {}/First {}/Length {}>>\nstream\n{}\nendstream\nendobj\n", idx.len(), index.len(), content.len(), content).as_bytes());
+            let xs = f.len();
+            f.extend_from_slice(format!("xref\n0 3\n0000000000 65535 f \n{:010} 00000 n \n{:010} 00000 n \ntrailer\n<</Size 10/Root 1 0 R>>\nstartxref\n{}\n%%EOF", o1, o2, xs).as_bytes());
+            cases.push(("objstm-dup-offsets".into(), format!("L {}", hex_tok(&f)), c.cur));
+        }
         let firsts = ["0", "1", "4", "8", "9", "100", "-1"];
         let ns = ["0", "1", "2", "-1", "3"];
         let contents: [&[u8]; 6] = [b"", b"5 0 (x)", b"5 0 6 0 [1 2]", b"5 0 6 3 1 2 3", b"5 0 5 0 5 0 true", b"5 9 6 99 7 0 <<>>"];
